@@ -551,7 +551,7 @@ if _CHUNK_SUITE not in PROPS['C13']['suites']:
 
 # C08 / C16 as statements about the sequence of events (Conc/Sections.lean): sections are uninterrupted in the execution log
 PROPS['C08']['theorems'] = PROPS['C08']['theorems'] + ['FV.Lk.held_log', 'FV.Lk.shared_log', 'FV.Lk.section_uninterrupted',
-                                                       'FV.Tie.C08_send_section_uninterrupted']
+                                                       'FV.Tie.C08_send_section_uninterrupted', 'FV.Tie.C08_section_reachable']
 PROPS['C08']['explanation'] = PROPS['C08']['explanation'] + (
     " As a statement about event sequences: the execution log of a schedule (which goroutine executed which node, in order) is defined in "
     "Conc/Sections.lean; held_log / shared_log / section_uninterrupted are proved for every checked program and every schedule, and "
@@ -559,7 +559,7 @@ PROPS['C08']['explanation'] = PROPS['C08']['explanation'] + (
     "send section, and until it leaves it, every use of the connection in the log is that goroutine's own.")
 PROPS['C15']['theorems'] = PROPS['C15']['theorems'] + ['FV.Tie.close_gate_sites', 'FV.Tie.connState_no_plain_store']
 PROPS['C16']['theorems'] = PROPS['C16']['theorems'] + ['FV.Tie.listen_gate_sites', 'FV.Tie.connState_no_plain_store', 'FV.Tie.wire_calls_only_in_methods', 'FV.Lk.held_log', 'FV.Lk.section_uninterrupted1', 'FV.Tie.C16_writes_under_writeLock',
-                                                       'FV.Tie.C16_write_section_uninterrupted']
+                                                       'FV.Tie.C16_write_section_uninterrupted', 'FV.Tie.C16_section_reachable']
 PROPS['C16']['explanation'] = PROPS['C16']['explanation'] + (
     " C16_write_section_uninterrupted: in the execution log of every schedule, while a goroutine holds writeLock every frame-writing call "
     "that happens is its own (frames are written one at a time, as a statement about the event sequence).")
